@@ -59,6 +59,24 @@ static void vg_free(void *p)
 #undef gnutls_free
 gnutls_free_function gnutls_free = vg_free;
 
+/* the other allocator hooks GnuTLS exports as function-pointer variables (may fail, as malloc may) */
+static void *vg_malloc(size_t n) { void *p; if (nondet_bool()) return NULL; p = malloc(n); __CPROVER_assume(p != NULL); return p; }
+static void *vg_calloc(size_t a, size_t b) { void *p; if (nondet_bool()) return NULL; p = calloc(a, b); __CPROVER_assume(p != NULL); return p; }
+static char *vg_strdup(const char *s)
+{
+	size_t n = strlen(s) + 1;
+	char *p = vg_malloc(n);
+	if (p)
+		memcpy(p, s, n);
+	return p;
+}
+#undef gnutls_malloc
+#undef gnutls_calloc
+#undef gnutls_strdup
+gnutls_alloc_function gnutls_malloc = vg_malloc;
+gnutls_calloc_function gnutls_calloc = vg_calloc;
+char *(*gnutls_strdup)(const char *) = vg_strdup;
+
 int gnutls_pubkey_init(gnutls_pubkey_t *key)
 {
 	if (nondet_bool()) {
